@@ -51,6 +51,11 @@ def load_findings():
 
 def match_finding(findings, pid, signature):
     import fnmatch
+    if '/handmade:' in signature:
+        # the same defect reproduced on a hand-shaped program (vlib/handprog.py) is the same finding
+        base = signature.split('/handmade:')[0]
+        hit = match_finding(findings, pid, base)
+        return hit if (hit is not None and hit.get('also_on_handmade_programs')) else None
     for f in findings:
         if f.get('property') != pid or f.get('status', 'open') != 'open':
             continue
